@@ -2,6 +2,7 @@ package c08
 
 import (
 	"bytes"
+	"strings"
 	"crypto/aes"
 	"crypto/cipher"
 	"fmt"
@@ -246,7 +247,38 @@ func genGCMDec(r *core.Rand) string {
 	return fmt.Sprintf("gcmdec %s %s %s %s %s", layout(r), hx(key), hx(nonce), hx(ad), hx(ct))
 }
 
+// genBufferLevel: the ops answered by the ARENA model — PKCS7Padding into spare capacity for any
+// block size 1..255, and what AESCBCDecrypt / AESGCMDecrypt leave in dst whatever the outcome
+func genBufferLevel(r *core.Rand) string {
+	switch r.Pick(40, 30, 30) {
+	case 0:
+		b := r.Range(1, 255)
+		if r.Chance(10) {
+			b = []int{-1, 0, 256, 300}[r.Intn(4)]
+		}
+		d := r.Bytes(r.Range(0, 40))
+		if r.Chance(30) && b > 0 {
+			d = r.Bytes(b * r.Range(0, 2))
+		}
+		pad := 1
+		if b > 0 {
+			pad = b - len(d)%b
+		}
+		extra := []int{0, pad - 1, pad, pad + 1, pad + 7, 300}[r.Intn(6)]
+		if extra < 0 {
+			extra = 0
+		}
+		return fmt.Sprintf("padcap %s %d %d", hx(d), b, extra)
+	case 1:
+		return "cbcdecleft" + strings.TrimPrefix(genCBCDec(r), "cbcdec")
+	}
+	return "gcmdecleft" + strings.TrimPrefix(genGCMDec(r), "gcmdec")
+}
+
 func genLine(r *core.Rand) string {
+	if r.Chance(12) {
+		return genBufferLevel(r)
+	}
 	switch r.Pick(6, 26, 18, 20, 12, 18) {
 	case 0:
 		return fmt.Sprintf("%s %d", []string{"enclen", "declen", "gcmenclen", "gcmdeclen"}[r.Intn(4)], genLen(r)+r.Intn(3)*r.Intn(200))
@@ -818,6 +850,43 @@ func corpus() []core.Case {
 		}
 		cs = append(cs, core.Case{Lines: append([]string{"@ C08 arena"}, ls...), Tag: "arena"})
 	}
+	// BUFFER LEVEL, enumerated: PKCS7Padding into spare capacity for EVERY block size 1..255 (padding
+	// fits exactly / one byte short / no spare / plenty); what a failed decryption leaves in dst
+	ls = nil
+	for b := 1; b <= 255; b++ {
+		d := seqBytes(b%9+1, 0x21)
+		pad := b - len(d)%b
+		for _, extra := range []int{0, pad - 1, pad, pad + 5} {
+			ls = append(ls, fmt.Sprintf("padcap %s %d %d", hx(d), b, extra))
+		}
+	}
+	ls = append(ls, "padcap - 8 4", "padcap 0102 0 4", "padcap 0102 -3 4", "padcap 0102 256 300", "padcap 0102 300 400")
+	cs = append(cs, core.Case{Lines: append([]string{"@ C08 x"}, ls...), Tag: "bufferlevel"})
+	ls = nil
+	for _, lay := range []string{"fresh", "inplace"} {
+		good := rawCBC(key, iv, stdPad16(seqBytes(20, 0x61)))
+		badpad := rawCBC(key, iv, append(seqBytes(31, 0x61), 0))
+		badbytes := rawCBC(key, iv, append(seqBytes(29, 0x61), 9, 3, 3))
+		ls = append(ls, fmt.Sprintf("cbcdecleft %s %s %s %s", lay, hx(key), hx(iv), hx(good)),
+			fmt.Sprintf("cbcdecleft %s %s %s %s", lay, hx(key), hx(iv), hx(badpad)),
+			fmt.Sprintf("cbcdecleft %s %s %s %s", lay, hx(key), hx(iv), hx(badbytes)),
+			fmt.Sprintf("cbcdecleft %s %s %s %s", lay, hx(key), hx(iv), hx(good[:17])),
+			fmt.Sprintf("cbcdecleft %s %s %s -", lay, hx(key), hx(iv)),
+			fmt.Sprintf("cbcdecleft %s %s %s %s", lay, hx(key[:31]), hx(iv), hx(good)))
+		blk, _ := aes.NewCipher(key)
+		g, _ := cipher.NewGCM(blk)
+		sealed := g.Seal(nil, nonce12, seqBytes(21, 0x41), []byte("ad"))
+		flipped := append([]byte{}, sealed...)
+		flipped[3] ^= 1
+		ls = append(ls, fmt.Sprintf("gcmdecleft %s %s %s 6164 %s", lay, hx(key), hx(nonce12), hx(sealed)),
+			fmt.Sprintf("gcmdecleft %s %s %s 6164 %s", lay, hx(key), hx(nonce12), hx(flipped)),
+			fmt.Sprintf("gcmdecleft %s %s %s 6165 %s", lay, hx(key), hx(nonce12), hx(sealed)),
+			fmt.Sprintf("gcmdecleft %s %s %s 6164 %s", lay, hx(key), hx(nonce12), hx(sealed[:15])),
+			fmt.Sprintf("gcmdecleft %s %s %s 6164 %s", lay, hx(key), hx(nonce12), hx(sealed[:16])),
+			fmt.Sprintf("gcmdecleft %s %s - 6164 %s", lay, hx(key), hx(sealed)),
+			fmt.Sprintf("gcmdecleft %s %s %s 6164 %s", lay, hx(key[:17]), hx(nonce12), hx(sealed)))
+	}
+	cs = append(cs, core.Case{Lines: append([]string{"@ C08 x"}, ls...), Tag: "bufferlevel"})
 	// MAGNITUDES, enumerated: every key length 0..70, every nonce length 0..40, every AD length
 	// 0..100, plaintext lengths at every block boundary up to 208, every PKCS#7 block size 1..255
 	ls = nil
